@@ -214,6 +214,13 @@ def reference_check(ck, programs, tier="quick", tag="ref"):
     items, res = export_items(d)
     if res is not None:
         ck.add_tlc(res, "TranscriptMC/export", {"MaxExport": 40}, exhaustive=False)
+    # two primers: the process first meets a label EXTENDING and a label that is a PREFIX of
+    # the first program's label, so the transcript comparison also sees a transcript label
+    # that depends on what the process cached before (Transcript!Items starts with the label)
+    if programs:
+        tiny = [{"op": "witness", "v": 3, "out": "x"}, {"op": "gate", "q": {"l": 1, "c": -3}, "w": ["x"]}]
+        first = str(programs[0]["id"])
+        programs = [{"id": first + "+ext", "ops": tiny}, {"id": first[:-1], "ops": tiny}] + list(programs)
     stdin = "".join(json.dumps({"id": str(p["id"]), "ops": p["ops"]}, separators=(",", ":")) + "\n"
                     for p in programs)
     out = vlib.harness("refverify", ["programs", "--items", items, "--out", d], stdin=stdin, timeout=1200)
